@@ -325,8 +325,8 @@ func unguarded(p *core.Program, guards []*guardFrame) (map[*ssa.Function]string,
 }
 
 func runC04(p *core.Program, r *core.Report) {
-	r.Explanation = "Decides panic CONTAINMENT for the kinds of panic whose presence is visible in the code, not the absence of all panics: (R4.1) every guard frame — a function that defers a recover — defers it as its first statement and records an error on the recovered path; (R4.2) the three dispatchers over the node kinds (walker, type checker, compiler) have a clause for every kind, so their `default: panic` is unreachable for trees of the module's kinds, including trees rewritten by visitors; (R4.3) in the unguarded region U — library functions reachable from Parse, Compile, Eval, Run, vm.Run, (*VM).Run and from the closures of the option constructors without entering a guard frame, plus the guard frames' own handlers — there is no explicit panic other than such a default, and no single-value type assertion that is not dominated by a successful test of the same assertion; (R4.4) every return of an API function yields (zero, error) or (value, nil)."
-	r.NotDecided = []string{"termination (never hang)", "value-dependent run-time panics in the unguarded region: index and slice bounds, nil dereference incl. method calls on a nil reflect.Type (DESIGN K3 was not built), reflect argument ranges, stack exhaustion on deep nesting", "panics raised by user visitors", "that every recorded first error is eventually returned (R4.5 not built)"}
+	r.Explanation = "Decides panic CONTAINMENT for the kinds of panic whose presence is visible in the code, not the absence of all panics: (R4.1) every guard frame — a function that defers a recover — defers it as its first statement and records an error on the recovered path; (R4.2) the three dispatchers over the node kinds (walker, type checker, compiler) have a clause for every kind, so their `default: panic` is unreachable for trees of the module's kinds, including trees rewritten by visitors; (R4.3) in the unguarded region U — library functions reachable from Parse, Compile, Eval, Run, vm.Run, (*VM).Run and from the closures of the option constructors without entering a guard frame, plus the guard frames' own handlers — there is no explicit panic other than such a default, no single-value type assertion that is not dominated by a successful test of the same assertion, and (K3/K5) no operation on a reflect.Type that panics on the model — a method call on the nil type, an In/Out index outside the parameters/results, a kind-specific method on another kind, a nil type handed to reflect.FuncOf/SliceOf — for any binding of the function's type origins (results of the checker's recursion, static types of nodes, Type fields of table entries) to a universe of model types, along any path whose conditions are consistent with the binding; (R4.4) every return of an API function yields (zero, error) or (value, nil)."
+	r.NotDecided = []string{"termination (never hang)", "value-dependent run-time panics in the unguarded region other than reflect.Type preconditions: index and slice bounds of Go slices, nil dereference of other pointers, stack exhaustion on deep nesting; reflect.Type operations inside loops of helpers (the evaluator gives up on loops)", "panics raised by user visitors", "that every recorded first error is eventually returned (R4.5 not built)"}
 	nk, msg := eng.FindNodeKinds(p)
 	if nk == nil {
 		r.Unk("R4.2", "node kinds", "", msg)
@@ -480,6 +480,14 @@ func runC04(p *core.Program, r *core.Report) {
 			return true
 		})
 	}
+	// K3/K5: reflect.Type preconditions, by abstract interpretation over model types
+	regionNames := map[string]bool{}
+	for _, f := range fs {
+		if fd, ok := f.Syntax().(*ast.FuncDecl); ok {
+			regionNames[core.FuncName(ef.Rel(f), fd)] = true
+		}
+	}
+	reflectPreconditionRule(p, r, regionNames)
 	r.Analysed["K1_explicit_panics_in_U"] = nK1
 	r.Analysed["K2_hard_assertions_in_U"] = nK2
 
@@ -690,6 +698,11 @@ func assertDischarged(info *types.Info, body *ast.BlockStmt, path []ast.Node, ta
 
 func c04Controls() []core.Mutant {
 	return []core.Mutant{
+		{Name: "nil test before the result-kind comparison removed", File: "checker/checker.go", Old: "if t == nil || t.Kind() != v.expect {", New: "if t.Kind() != v.expect {", Rule: "R4.3", Construct: "checker.Check/reflect.Type operations"},
+		{Name: "closure body without static type handed to reflect.FuncOf", File: "checker/checker.go", Old: "\tif t == nil {\n\t\tt = interfaceType // a closure may yield nil\n\t}\n", New: "", Rule: "R4.3", Construct: "ClosureNode/reflect.Type operations"},
+		{Name: "result count no longer tested before Out(0)", File: "checker/checker.go", Old: "\t\t\t\tfn.NumOut() == 1 &&\n", New: "", Rule: "R4.3", Construct: "FunctionNode/reflect.Type operations"},
+		{Name: "ambiguous operator function dereferenced", File: "conf/config.go", Old: "!ok || fnType.Type == nil || fnType.Type.Kind()", New: "!ok || fnType.Type.Kind()", Rule: "R4.3", Construct: "conf.(Config).Check/reflect.Type operations"},
+		{Name: "REFACTORING: nil test as an early return", File: "checker/checker.go", Silent: true, Old: "\t\tdefault:\n\t\t\tif t == nil || t.Kind() != v.expect {\n\t\t\t\treturn nil, fmt.Errorf(\"expected %v, but got %v\", v.expect, t)\n\t\t\t}", New: "\t\tdefault:\n\t\t\tif t == nil {\n\t\t\t\treturn nil, fmt.Errorf(\"expected %v, but got %v\", v.expect, t)\n\t\t\t}\n\t\t\tif t.Kind() != v.expect {\n\t\t\t\treturn nil, fmt.Errorf(\"expected %v, but got %v\", v.expect, t)\n\t\t\t}"},
 		{Name: "checker loses the ConstantNode clause", File: "checker/checker.go", Old: "\tcase *ast.ConstantNode:\n\t\tt = v.ConstantNode(n)\n", New: "", Rule: "R4.2", Construct: "ConstantNode"},
 		{Name: "compiler recover removed", File: "compiler/compiler.go", Old: "\tdefer func() {\n\t\tif r := recover(); r != nil {\n\t\t\terr = fmt.Errorf(\"%v\", r)\n\t\t}\n\t}()\n", New: "", Rule: "R4.3", Construct: "panic"},
 		{Name: "VM handler swallows the panic", File: "vm/vm.go", Old: "\t\t\terr = f.Bind(program.Source)\n", New: "\t\t\t_ = f.Bind(program.Source)\n", Rule: "R4.1", Construct: "vm.(VM).Run"},
